@@ -33,6 +33,7 @@ type Profile struct {
 	NoSnapshot  bool
 	JournalMode []string
 	LegacyFormat bool // one world in eight is a legacy-format file (schema format 1, later 2 or 3: DESC in indexes is ignored)
+	TextBoolDefaults bool // ALTER ... ADD COLUMN c TEXT DEFAULT TRUE is generated (see world.Step)
 	WALTrip     bool // histories may take the file through WAL mode and back
 	CounterWrap bool // histories may put the file change counter just below its wrap-around
 	CacheSize   int // writer cache_size pragma (pages); 0 = default
@@ -691,7 +692,18 @@ func (w *World) Step() {
 			" DEFAULT ' 12 '", " DEFAULT '1e3'", " DEFAULT '12abc'", " DEFAULT '0x10'", " DEFAULT '.5'", " DEFAULT '-0'", " DEFAULT '9223372036854775808'",
 			" DEFAULT 9223372036854775807", " DEFAULT -9223372036854775808", " DEFAULT '3.0'", " DEFAULT '+5'", " DEFAULT ''", " DEFAULT '1e400'", " DEFAULT abc", " DEFAULT TRUE", " DEFAULT false", " DEFAULT '12.50'",
 			" DEFAULT tRuE", " DEFAULT falſe", " DEFAULT TRUE", " DEFAULT 'true'", " DEFAULT \"false\"", " DEFAULT truee"}
-		def += defaults[s.Draw(len(defaults), "adef")]
+		dflt := defaults[s.Draw(len(defaults), "adef")]
+		if !w.Prof.TextBoolDefaults && (strings.HasPrefix(def, cname+" TEXT") || strings.HasPrefix(def, cname+" VARCHAR")) {
+			// DEFAULT TRUE on a TEXT column: rows older than the ALTER read the INTEGER 1 (no
+			// TEXT affinity), an index created later stores the TEXT '1' for them - SQLite's own
+			// index then disagrees with ORDER BY over the table's values. Only the table-scan
+			// check (C01) keeps this combination; checks that read through indexes do not.
+			switch fold.Lower(strings.TrimSpace(strings.TrimPrefix(dflt, " DEFAULT"))) {
+			case "true", "false":
+				dflt = " DEFAULT 1"
+			}
+		}
+		def += dflt
 		w.Begin()
 		w.Exec("ALTER TABLE " + gen.Quote(t.Name) + " ADD COLUMN " + def)
 		w.Commit()
